@@ -219,11 +219,16 @@ class CoreCheck(LineCheck):
         return bool(st["crashes"] or st["monfail"])
 
     def shrink(self, ctx, case):
-        """drop whole sections, then single actions, while the failure persists"""
+        """drop whole sections, then single actions, while the failure persists.  Shrinking is a convenience for the
+        reader of the replay file: all shrinking of one check run shares a wall-clock budget (the extracted model needs
+        seconds per try on bursts of thousands of posts; seed C09_9 kept a check busy for half an hour)"""
+        import time
+        if not hasattr(ctx, "shrink_deadline"):
+            ctx.shrink_deadline = time.time() + float(os.environ.get("VERIF_SHRINK_SECONDS", "150"))
         secs = case.split(";")
         tries = 0
         i = 1
-        while i < len(secs) and tries < 60:
+        while i < len(secs) and tries < 60 and time.time() < ctx.shrink_deadline:
             if secs[i][:1] in ("H", "W", "O", "X"):
                 cand = secs[:i] + secs[i + 1:]
                 tries += 1
@@ -239,7 +244,7 @@ class CoreCheck(LineCheck):
             for li in range(len(lists)):
                 acts = lists[li].split()
                 j = 0
-                while j < len(acts) and tries < 160:
+                while j < len(acts) and tries < 160 and time.time() < ctx.shrink_deadline:
                     cand_acts = acts[:j] + acts[j + 1:]
                     cl = lists[:li] + [" ".join(cand_acts) if cand_acts else "-"] + lists[li + 1:]
                     cs = secs[:si] + [(head + ":" if head != "S" else "S ") + "/".join(cl)] + secs[si + 1:]
